@@ -13,7 +13,7 @@ REG = dict(category="model_checking",
     "behind its shortest prefix. After every step the replay compares allocation counts (counting allocator: at most one malloc per create/clone, none for the "
     "preallocated variants), liveness of slots, and the library's INTERNAL blinding state (scalar_offset, ge_offset, proj_blind) with EcmultGenBlind -- the exact "
     "TLA+ specification of the HMAC-DRBG blinding chain, whose defining property kG = comb(k+offset)+ge_offset TLC checks as an invariant; at the end of each "
-    "history every API family (43 calls on fixed inputs) must give the byte-identical result of a pristine context. Probe traces (long random histories, the "
+    "history every API family (44 calls on fixed inputs) must give the byte-identical result of a pristine context. Probe traces (long random histories, the "
     "static context and a byte copy of it, a context on a PROT_READ page) are validated by TLC: static context = same result or illegal-callback+0, "
     "documented-static families always same. The repository's own context tests, traced by guarded hooks, must be explained event by event by the "
     "blinding specification (Trace_C20.tla). Threads: C20_SharedCtx.tla explores all interleavings of 3 threads x 2 calls over a footprint table MEASURED from the "
@@ -136,7 +136,7 @@ def run(chk):
     # reference probe on a pristine context
     ref_ev = chk.record([{"e": "CtxReset", "in": {}}, {"e": "CtxCreate", "in": {"s": 0}}, {"e": "CtxCallAll", "in": {"s": 0, "full": 1}}], "std")
     ref = {k: v for k, v in ref_ev[2]["out"].items() if k.startswith("f_")}
-    ref["icb"] = 0
+    ref["icb"] = 0; ref["sha_foreign"] = 0      # specified, not adopted from the observation: see ProbeOK in C20_Context.tla
     recs = []; ntr = 0
     for s in order:
         pre = prefix(s)
@@ -148,13 +148,13 @@ def run(chk):
             for sl, c in items:
                 if c["kind"] != "none":
                     recs.append({"e": "CtxCallAll", "in": {"s": int(sl), "full": 1 if (ntr % 4 == 0 or not quick) else 0},
-                                 "out": ref if (ntr % 4 == 0 or not quick) else {k: v for k, v in ref.items() if k in CHEAP or k == "icb"}})
+                                 "out": ref if (ntr % 4 == 0 or not quick) else {k: v for k, v in ref.items() if k in CHEAP or k in ("icb", "sha_foreign")}})
     log("[C20] %d histories (transitions) -> %d API calls to replay" % (ntr, len(recs)))
     for v in (["std"] if quick else ["std", "verify", "noasm"]):
         rf = ref
         if v != "std":   # object layouts differ between builds: take the reference of the same build
             ev = chk.record([{"e": "CtxReset", "in": {}}, {"e": "CtxCreate", "in": {"s": 0}}, {"e": "CtxCallAll", "in": {"s": 0, "full": 1}}], v)
-            rf = {k: x for k, x in ev[2]["out"].items() if k.startswith("f_")}; rf["icb"] = 0
+            rf = {k: x for k, x in ev[2]["out"].items() if k.startswith("f_")}; rf["icb"] = 0; rf["sha_foreign"] = 0
             rr = [dict(r, out=({k: rf[k] for k in r["out"]} if r["e"] == "CtxCallAll" else r["out"])) for r in recs]
         else: rr = recs
         chk.replay(rr, v, "context histories", stateful="CtxReset")
